@@ -117,7 +117,7 @@ class Case:
         self.line = sys_line(cid, solver, n, trip, b, x0, tol, maxit, sizes)
         self.ftrip = None; self.fb = None
     @property
-    def par(self): return self.solver.endswith("_par")
+    def par(self): return "_par" in self.solver
     @property
     def kind(self): return self.solver.split("_")[0]
     def maxit_eff(self):
@@ -162,6 +162,9 @@ def gen_all(ctx):
             if kindsolver == "pcg" and (min(sizes) == 0): sizes = rand_parts(rng, n, P) if False else even(n, P)
             if kindsolver == "pcg" and min(sizes) == 0: continue      # the AMG setup is not C17's subject: no empty ranks
             cases.append(Case(cid(), kindsolver + "_par", n, trip, b, x0, tol, maxit, sizes, g, tags, small, xstar))
+            if kindsolver == "bi" and rng.random() < 0.3:
+                # the variants that accumulate inner products / norms rank after rank (SeqInner_, SeqNorm_, SeqInnerSeqNorm_BiCGStab)
+                cases.append(Case(cid(), "bi_par_" + rng.choice(["si", "sn", "sisn"]), n, trip, b, x0, tol, maxit, sizes, g, tags + ["seq_reduction"], small, xstar))
 
     def even(n, P):
         q, m = divmod(n, P); return [q + (1 if i < m else 0) for i in range(P)]
@@ -360,7 +363,8 @@ def true_res_norm(c, x):
     return math.sqrt(sum((bi - yi) ** 2 for bi, yi in zip(b, y)))
 
 
-def sigbase(c): return {"cg_seq": "cg", "cg_par": "cg_par", "bi_seq": "bicgstab", "bi_par": "bicgstab_par", "pcg_par": "pcg"}[c.solver]
+def sigbase(c): return {"cg_seq": "cg", "cg_par": "cg_par", "bi_seq": "bicgstab", "bi_par": "bicgstab_par", "pcg_par": "pcg",
+                        "bi_par_si": "bicgstab_par", "bi_par_sn": "bicgstab_par", "bi_par_sisn": "bicgstab_par"}[c.solver]
 
 
 # ------------------------------------------------------------------ oracle (implementation output only)
